@@ -118,6 +118,7 @@ type tracer struct {
 	prop    string
 	viol    *violation
 	dead    bool
+	desync  bool // a failed frame was not (fully) reverted: only C12 judges the rest of this pass
 	enforce bool // re-enable access-list enforcement (vm.Config.Debug switches it off)
 	inject  int  // step index at which the running frame loses all its gas; -1 = never
 	tr      *simkit.Trace
@@ -528,6 +529,13 @@ func (t *tracer) resolve(o *opRec, scope *vm.ScopeContext, child *frame) {
 			d = kept
 		}
 		if len(d) > 0 {
+			// for the other properties: the model drops a failed frame's effects, the node kept some of them, so
+			// the model's transaction-level predictions no longer apply to this pass
+			for _, l := range d {
+				if !strings.HasPrefix(l, "pending-etx") { // (a stale pending ETX alone is for the outbound-list oracle to judge)
+					t.desync = true
+				}
+			}
 			t.violate("C12", "frame-digest", fmt.Sprintf("op=%s cause=%s field=%s inside=%s", o.kind, cause, diffKinds(d), inside(child)),
 				"world at entry of the %s at depth %d differs from the world after it failed (%s, status word %s):\n  %s", o.kind, o.depth, cause, status, strings.Join(d, "\n  "))
 		}
